@@ -284,7 +284,7 @@ ASSUMPTIONS = ["A9 the ISO C precedence table and the reference evaluator of nat
                "operator proofs: expressions whose value C leaves undefined or implementation-defined (division by zero, INT64_MIN/-1, "
                "shift count outside [0,64), signed overflow, << of a negative or overflowing signed value, >> of a negative value) "
                "are excluded by the precondition, as the property's quantifier says"]
-NOT_COVERED = ["literal conversion, character constants, ?: and the recursion of expression/primary/term are checked up to the stated bound only",
+NOT_COVERED = ["literal conversion, character constants and the recursion of expression/primary/term are checked up to the stated bound only",
                "unsuffixed literals above INT64_MAX raise OverflowError (pinned by tests/failure): recorded finding",
                "macro expansion before evaluation (C03)"]
 EXPLANATION = ("Table, grouping and #elif obligations are discharged exactly on the real ast; the 22 operators and the wrap helper are "
